@@ -3,7 +3,7 @@
 from ..common import model_walk, run_kinds
 from ..core import AnalysisError
 from ..effects import Effects
-from ..ir import read_summaries, root_object, show, subterms, write_summaries
+from ..ir import is_log_call, read_summaries, root_object, show, subterms, write_summaries
 from ..kinds import count_of
 from ..rules_ift import Rep
 from ..rules_knn import check_knn_scan, find_knn_scans
@@ -138,7 +138,7 @@ def check_one(chk, rep, repo, cls, eff):
                f"array '{show(arr)}' outlives one sample and is neither reset per sample nor read under a validity test")
     # (3) kinds: the batch position only selects the query node
     for ev in w.events:
-        if per.lid not in ev.loops or ev.kind == "bind" or i is None:
+        if per.lid not in ev.loops or ev.kind == "bind" or i is None or is_log_call(ev):
             continue
         tops = [t for t in (ev.target, ev.value) if t is not None] + list(ev.args) + [g for g, _ in ev.guards]
         for top in tops:
